@@ -222,6 +222,12 @@ CHECKS = {
             dict(PT, kind="trace", name="peer_versions", workload="peer", n=(200, 3000), opts={"hostile": 0},
                  require={r'"version":2': 20, r'"b":\[4,': 50, r'"ev":"a_send_ports"': 30}, nontrivial=[r'"b":\[4,']),
             data_leg("data_frames", (60, 1500), {"cancel": 0, "ports": 1}, require={r'"b":\[8,': 20}, nontrivial=[r'"b":\[8,']),
+            # typed connections over Connect::io on a byte stream delivered in arbitrary pieces: values with many channel halves (port
+            # request batches) and large items; every frame an endpoint writes must fit the peer's max_frame_length
+            dict(kind="trace", name="stream_frames", workload="wiring", n=(200, 3000), opts={"stream": 1}, tspec="StreamTrace.tla", tcfg="StreamTrace.cfg",
+                 require={r'"stream":true': 200, r'"ev":"w_recv"': 150}, nontrivial=[r'"ev":"w_recv"']),
+            dict(kind="trace", name="stream_typed", workload="typed_base", n=(150, 2000), opts={"stream": 1}, tspec="StreamTrace.tla", tcfg="StreamTrace.cfg",
+                 require={r'"stream":true': 150}, nontrivial=[r'"r":"item"']),
         ],
     },
     "C17": {
